@@ -15,7 +15,7 @@ ID = "C18"
 LEVEL = "exploration"
 RULE = (
     "case = n in 2..4 concurrent send_message callers (own ids, own timeouts) on one (read, write) pair + the server's answers as a list of "
-    "(instant, caller index) in any order on a virtual-time grid around the 0.5 s poll boundaries, each a result (also the empty/falsy results {}, [], 0, "", false) or an error, as the unified or the typed envelope class + 0..2 unrelated notifications placed between answers; "
+    "(instant, caller index) in any order on a virtual-time grid around the 0.5 s poll boundaries, each a result (also the empty/falsy results {}, [], 0, "", false) or an error, as the unified or the typed envelope class + 0..2 unrelated notifications placed between answers; optionally one caller's cancellation token triggered at a generated instant; "
     "the same over a real StdioClient with the answers arriving behind a burst of 0..400 notifications in 1..7 pipe reads; n<=3 enumerated exhaustively (all answer permutations x 5 instants per answer x 3 notification patterns), n=4 drawn by Hypothesis; "
     "a recording proxy logs which caller task dequeued which item; non-trivial = answer order differs from request order or a notification sits between two answers; "
     "distinct = distinct full case"
@@ -131,13 +131,28 @@ def check(case: Dict[str, Any]) -> Outcome:
 
     results: Dict[int, Tuple[str, Any, float]] = {}
 
+    cancels: Dict[str, int] = case.get("cancel", {})  # caller -> instant (cs) at which its cancellation token is triggered
+    tokens: Dict[int, Any] = {}
+    if cancels:
+        from chuk_mcp.protocol.messages.send_message import CancellationToken
+
+        tokens = {int(i_): CancellationToken() for i_ in cancels}
+
     async def call(r, w):
+        async def canceller(i_: int, t_: float):
+            await asyncio.sleep(t_)
+            tokens[i_].cancel()
+
+        for i_, t_ in cancels.items():
+            asyncio.ensure_future(canceller(int(i_), t_ / 100.0))
+
         async def one(i: int):
             loop = asyncio.get_running_loop()
             try:
                 if starts[i] > 0:
                     await asyncio.sleep(starts[i])
-                v = await send_message(r, w, f"m/{i}", {"i": i}, timeout=timeouts[i], message_id=f"c{i}")
+                kw = {"cancellation_token": tokens[i]} if i in tokens else {}
+                v = await send_message(r, w, f"m/{i}", {"i": i}, timeout=timeouts[i], message_id=f"c{i}", **kw)
                 results[i] = ("return", v, loop.time())
             except BaseException as e:  # noqa
                 results[i] = ("raise", e, loop.time())
@@ -163,7 +178,7 @@ def check(case: Dict[str, Any]) -> Outcome:
     if len(ts) >= 2:
         between = any(ts[0] <= x <= ts[-1] for x in notifs)
     out.nontrivial = out_of_order or between
-    out.classes = (f"n:{n}", "out-of-order" if out_of_order else "in-order", "notif-between" if between else "no-notif-between") + (("staggered-starts",) if any(starts) else ())
+    out.classes = (f"n:{n}", "out-of-order" if out_of_order else "in-order", "notif-between" if between else "no-notif-between") + (("staggered-starts",) if any(starts) else ()) + (("a-caller-cancelled",) if cancels else ())
 
     # who dequeued what
     dequeued_by: Dict[str, List[str]] = {}
@@ -179,7 +194,10 @@ def check(case: Dict[str, Any]) -> Outcome:
 
     # all n requests written exactly once
     reqs = [w for _, w in res.written if isinstance(w, dict) and "method" in w and "id" in w]
-    if sorted(str(r["id"]) for r in reqs) != sorted(f"c{i}" for i in range(n)):
+    # (a caller whose token is cancelled no later than its start never sends anything)
+    optional = {f"c{i_}" for i_, t_ in cancels.items() if t_ / 100.0 <= starts[int(i_)] + 1e-9}
+    ids_written = sorted(str(r["id"]) for r in reqs)
+    if sorted(x for x in ids_written if x not in optional) != sorted(f"c{i}" for i in range(n) if f"c{i}" not in optional) or len(set(ids_written)) != len(ids_written):
         out.fail("requests-not-written-once-each", repr(reqs))
 
     for i in range(n):
@@ -206,6 +224,10 @@ def check(case: Dict[str, Any]) -> Outcome:
             if code != -32000 - i:
                 out.fail("cross-talk:caller-got-anothers-error", f"caller {i} raised code {code}")
                 continue
+        if str(i) in cancels and not (fa is not None and fa[0] < cancels[str(i)] / 100.0 - 1e-9):
+            # this caller was cancelled before its answer arrived: how it ends is C14's subject; what matters here is
+            # that its peers still get their responses
+            continue
         # ---- (b) loss
         if fa is not None and fa[0] < T - 1e-9:
             expect_err = i in err_for and any(ii == i for _, ii in answers)
@@ -275,6 +297,17 @@ def job_exhaustive(col: Collector, seed: int, tier: str, shard: int, nshards: in
                     continue
                 case = {"n": 2, "timeouts": [200, 200], "answers": [[inst[k], perm[k]] for k in range(2)], "notifs": [], "phases": list(phs)}
                 col.record(case, check(case))
+    # one caller's token is cancelled while it is blocked; the next message it dequeues is a peer's response
+    for n_ in (2, 3):
+        for who in range(n_):
+            for tcan in (5, 20, 45, 55):
+                for perm in itertools.permutations(range(n_)):
+                    for inst in ((10, 30, 60), (48, 52, 70), (30, 30, 30)):
+                        i += 1
+                        if i % nshards != shard:
+                            continue
+                        case = {"n": n_, "timeouts": [200] * n_, "answers": [[inst[k], perm[k]] for k in range(n_)], "notifs": [], "cancel": {str(who): tcan}}
+                        col.record(case, check(case))
     # staggered lifetimes: caller 2 joins at t=0.30 after an earlier caller may have completed
     for perm in itertools.permutations(range(3)):
         for inst in itertools.product([10, 20, 40, 60, 90], repeat=3):
@@ -300,6 +333,9 @@ def cases(draw):
     case = {"n": n, "timeouts": timeouts, "answers": answers, "notifs": notifs, "errors": errors}
     if draw(st.integers(0, 2)) == 0:
         case["typed"] = [i for i in range(n) if draw(st.booleans())]
+    if draw(st.integers(0, 3)) == 0:
+        who = draw(st.integers(0, n - 1))
+        case["cancel"] = {str(who): draw(tgrid)}
     if draw(st.integers(0, 2)) == 0:
         case["phases"] = [draw(st.sampled_from([0, 0, -1, -2, -4])) for _ in case["answers"]]
     if draw(st.integers(0, 2)) == 0:
